@@ -8,9 +8,9 @@ def P(**kw):
 CHECKS = {
     "C05": {
         "groups": [
-            {"name": "c05-unit", "files": ["h_c05.go"],
+            {"name": "c05-unit", "files": ["h_c04.go", "h_c14.go", "h_c05.go"],
              "harnesses": ["VerifH_C05_RemainingLength", "VerifH_C05_Pack", "VerifH_C05_Publish", "VerifH_C05_PublishBig",
-                           "VerifH_C05_Subscribe", "VerifH_C05_Unsubscribe", "VerifH_C05_Acks", "VerifH_C05_Connect"],
+                           "VerifH_C05_Subscribe", "VerifH_C05_Unsubscribe", "VerifH_C05_Acks", "VerifH_C05_Connect", "VerifH_C05_Inbound"],
              "flags": {"quick": [], "thorough": [P(huge=1)]},
              "reach": {"VerifH_C05_RemainingLength": ["encoded"], "VerifH_C05_Connect": ["connect-written"], "VerifH_C05_Publish": ["packed"]}},
         ],
@@ -59,6 +59,9 @@ CHECKS = {
             {"name": "c15-seq", "files": ["h_c15.go"], "harnesses": ["VerifH_C15_NewID", "VerifH_C15_CycleLemma", "VerifH_C15_PresetID"],
              "flags": {"quick": [P(calls=8)], "thorough": [P(calls=16)]},
              "reach": {"VerifH_C15_NewID": ["ids"], "VerifH_C15_CycleLemma": ["lemma"], "VerifH_C15_PresetID": ["written"]}},
+            {"name": "c15-conc", "files": ["h_c15.go"], "harnesses": ["VerifH_C15_Concurrent", "VerifH_C15_AcrossReconnect"], "concurrent": True,
+             "flags": {"quick": ["-race", "-delays=2", P(threads=2, percaller=2)], "thorough": ["-race", "-delays=3", P(threads=3, percaller=2)]},
+             "reach": {"VerifH_C15_Concurrent": ["joined"], "VerifH_C15_AcrossReconnect": ["both-outstanding"]}},
         ],
     },
     "C19": {
@@ -186,9 +189,9 @@ CHECKS = {
     },
     "C07": {
         "groups": [
-            {"name": "c07-acks", "files": ["h_c11.go", "h_c07.go"], "harnesses": ["VerifH_C07_Acks", "VerifH_C07_SubAck"], "concurrent": True,
+            {"name": "c07-acks", "files": ["h_c11.go", "h_c07.go"], "harnesses": ["VerifH_C07_Acks", "VerifH_C07_SubAck", "VerifH_C07_Prompt"], "concurrent": True,
              "flags": {"quick": [P(callers=2, acks=2)], "thorough": ["-delays=1", P(callers=2, acks=3)]},
-             "reach": {"VerifH_C07_Acks": ["end", "completed"], "VerifH_C07_SubAck": ["subscribed"]}},
+             "reach": {"VerifH_C07_Acks": ["end", "completed"], "VerifH_C07_SubAck": ["subscribed"], "VerifH_C07_Prompt": ["end"]}},
         ],
     },
 }
